@@ -8,6 +8,7 @@
  *   verify PK <pk tokens> SIG <sig tokens> MSG <msghex|->
  *        -> R v=<0|1> n=<chain length|-> ord=<6 bits|-> ker=<bit|-> taps=<c k t m h fired>- H=<hex|-> H2=<hex|-> jcom=<hex|-> jalt=<hex|-> jchall=<hex|-> jpk=<hex>
  *   hints <Are> <Aim> <f>   -> R hints <h0> <h1>     (public canonical-basis hints of the curve with coefficient A)
+ *   (with hook H3 present) trace=e4:<log2_of_e>,<e_half>,<row>,<max current>,<max strategy column>,<final current>;th:<n>,<slots used>,<max strategy index>
  * tokens
  *   pk  : Are Aim Cre Cim h0 h1                      (field elements: hex of the canonical integer; hints: decimal int)
  *   sig : (dim2)  Are Aim Cre Cim bt trl m00 m01 m10 m11 chall chall_b ha0 ha1 hc0 hc1
@@ -128,6 +129,25 @@ static void print_j(const char *name, const ec_curve_t *E, int have)
     fp2_print_bytes(&j);
 }
 
+/* ---------------------------------------------------------------- traversal trace (hook H3 of engineer a3, optional) */
+#ifdef SQISIGN_VERIF_TRACE
+static struct { int have4, log2e, ehalf, odd, row4, maxcur, maxstrat, fincur; int have2, n, adj, len0, maxslots, maxidx; } trc;
+static void trace_fn(int tag, int a, int b, int c)
+{
+    switch (tag) {
+    case 1: trc.have4 = 1; trc.log2e = a; trc.ehalf = b; trc.odd = c; trc.maxcur = 0; trc.maxstrat = 0; break;
+    case 2: trc.row4 = a; break;
+    case 3: if (b > trc.maxcur) trc.maxcur = b; if (a > trc.maxstrat) trc.maxstrat = a; break;
+    case 7: trc.fincur = a; break;
+    case 20: trc.have2 = 1; trc.n = a; trc.adj = c; trc.maxslots = 0; trc.maxidx = 0; break;
+    case 21: if (a > trc.maxidx) trc.maxidx = a; break;
+    case 22: trc.len0 = a; if (a > trc.maxslots) trc.maxslots = a; break;
+    case 27: if (a > trc.maxidx) trc.maxidx = a; if (b + 1 > trc.maxslots) trc.maxslots = b + 1; break;
+    default: break;
+    }
+}
+#endif
+
 /* ---------------------------------------------------------------- objects <-> tokens */
 #ifdef VARIANT_HEUR
 #define NSIG 15
@@ -201,8 +221,15 @@ static int do_verify(signature_t *sig, public_key_t *pk, const unsigned char *m,
 {
     tap_reset();
     sqisign_verif_tap = tap_fn;
+#ifdef SQISIGN_VERIF_TRACE
+    memset(&trc, 0, sizeof trc);
+    sqisign_verif_trace = trace_fn;
+#endif
     int v = protocols_verif(sig, pk, m, l);
     sqisign_verif_tap = 0;
+#ifdef SQISIGN_VERIF_TRACE
+    sqisign_verif_trace = 0;
+#endif
     return v;
 }
 
@@ -236,6 +263,13 @@ static void report(int v, const public_key_t *pk)
     print_j("jalt", &tap.Ealt, tap.have_alt);
     print_j("jchall", &tap.Echall, tap.have_chall);
     print_j("jpk", &pk->curve, 1);
+#ifdef SQISIGN_VERIF_TRACE
+    printf(" trace=");
+    if (trc.have4) printf("e4:%d,%d,%d,%d,%d,%d", trc.log2e, trc.ehalf, trc.row4, trc.maxcur, trc.maxstrat, trc.fincur); else printf("e4:-");
+    if (trc.have2) printf(";th:%d,%d,%d", trc.n, trc.maxslots, trc.maxidx); else printf(";th:-");
+#else
+    printf(" trace=-");
+#endif
     printf(" Achall=");
     if (tap.have_chall) {
         fp2_t a, c; ec_curve_t e = tap.Echall;
